@@ -411,10 +411,20 @@ class Valuation:
         self.assign = dict(assign or {})
         self.domain = domain  # callable(leaf, rng) -> int | None
         self.rng = random.Random(seed)
+        self.salt = None  # {element term E: j}: this valuation speaks about the j-th *other* element of E's collection (see _aggregate)
         self.call_models = None  # callee name -> python function of the evaluated arguments (a rule's abstract model)
         self.pool = None  # boundary phase: the constants the compared terms test against (see equiv)
 
     def leaf(self, t):
+        if self.salt:
+            for E, j in self.salt.items():
+                if contains(t, lambda y: y == E):
+                    key = ("salted", j, t)
+                    if key not in self.assign:
+                        rng = random.Random(_h(self.seed, "salt", j, t))
+                        v = self.domain(t, rng) if self.domain is not None else None
+                        self.assign[key] = default_domain(t, rng) if v is None else v
+                    return self.assign[key]
         if t in self.assign:
             return self.assign[t]
         if self.fields and t[0] == "f":
@@ -467,7 +477,7 @@ def default_domain(t, rng: random.Random) -> int:
 
 def ev(t, val: Valuation):
     """Evaluate term t. Raises EvalError when the valuation is outside the operators' domain."""
-    if val.override and t in val.override:
+    if val.override and t in val.override and not (val.salt and any(contains(t, lambda y, E=E: y == E) for E in val.salt)):
         return val.override[t]
     k = t[0]
     if k == "c":
@@ -553,6 +563,8 @@ def ev(t, val: Valuation):
         if all(_key(v) == _key(vals[0]) for v in vals[1:]):
             return vals[0]
         return _h("join", tuple(sorted(repr(_key(v)) for v in vals)))
+    if k == "call" and t[1] in _AGGREGATES and len(t[2]) == 1 and t[2][0][0] == "comp" and len(t[2][0]) >= 5:
+        return _aggregate(t, val)
     if k == "call":
         cm = val.call_models.get(t[1]) if val.call_models else None
         if cm is not None:
@@ -595,6 +607,8 @@ def ev(t, val: Valuation):
     if k == "slice":
         return ("slice",) + tuple(_key(ev(x, val)) for x in t[1:])
     if k == "iter":
+        if val.salt and t in val.salt:
+            return _h("iter", _key(ev(t[1], val)), t[2], "element", val.salt[t])
         return val.shaped(_h("iter", _key(ev(t[1], val)), t[2]))
     if k == "comp":
         # a comprehension as a whole is an uninterpreted function of its parts (element, iterable, filters)
@@ -614,6 +628,38 @@ def ev(t, val: Valuation):
     if k == "arrtype":
         return _h(k, repr(t[1]), _key(ev(t[2], val)))
     raise EvalError(f"cannot evaluate {k}")
+
+
+_AGGREGATES = {"max": max, "min": min, "sum": sum, "any": any, "all": all}
+
+
+def _aggregate(t, val: Valuation):
+    """max / min / sum / any / all over a comprehension `elt(e) for e in ES if conds(e)`: ES is modelled as three elements - the
+    one the valuation already speaks about (the element of a loop over the same collection, if any) and two others whose
+    fields are drawn independently - so that `max(f(e) for e in ES) >= f(current e)` holds and unrelated bounds do not."""
+    import copy as _copy
+    comp = t[2][0]
+    elt, it, conds = comp[2], comp[3], comp[4]
+    E = ("iter", it, None)
+    vals = []
+    for j in range(3):
+        if j == 0:
+            vj = val
+        else:
+            vj = _copy.copy(val)
+            vj.salt = dict(val.salt or {})
+            vj.salt[E] = j
+        if all(bool(ev(c, vj)) for c in conds):
+            vals.append(ev(elt, vj))
+    kws = dict(t[3])
+    if not vals and t[1] in ("max", "min"):
+        if "default" in kws:
+            return ev(kws["default"], val)
+        raise EvalError("aggregate of an empty sequence")
+    try:
+        return _AGGREGATES[t[1]](vals)
+    except Exception:
+        return _h("aggregate", t[1], tuple(_key(v) for v in vals))
 
 
 class Rec:
